@@ -5,6 +5,7 @@ package fx
 import (
 	"bytes"
 	"reflect"
+	"runtime"
 	"sort"
 	"sync"
 	"unsafe"
@@ -212,6 +213,35 @@ func CallsHook(i int) {
 func ReturnsAliasOfParam(ws []uint64) []uint64 { return ws[1:] }
 
 func ReturnsGlobalSlice() []uint64 { return table[:] }
+
+// ---- panic values and ambient state
+
+type rangeErr struct{ I int }
+
+var oneErr = &rangeErr{}
+
+func outOfRange(i int) *rangeErr {
+	oneErr.I = i
+	return oneErr
+}
+
+// panics with ONE reused package-level error value
+func PanicsWithGlobal(ws []uint64, i int) uint64 {
+	if i >= len(ws) {
+		panic(outOfRange(i))
+	}
+	return ws[i]
+}
+
+func PanicsWithFresh(ws []uint64, i int) uint64 {
+	if i >= len(ws) {
+		panic(&rangeErr{I: i})
+	}
+	return ws[i]
+}
+
+// the result depends on the CPU count
+func UsesGOMAXPROCS(ws []uint64) int { return len(ws) / runtime.GOMAXPROCS(0) }
 
 // ---- mutators: confined to the receiver
 
